@@ -2,15 +2,15 @@
 // C23 on the REAL parser + validator. Every script up to a small number of instructions is generated from a grammar of instructions over
 // the names x, y (scalars / iterators), $s, #c, %m, #%cm; an ORACLE written from the property statement (not from validator.rs) walks the
 // generator's own tree in text order and decides "every variable used is defined earlier in the text or is the iterator of an enclosing fold,
-// and every next names the iterator of an enclosing fold". Six jobs share one enumeration:
+// and every next names the iterator of an enclosing fold". Seven jobs share one enumeration:
 //   C23.scope.undefined            no accepted script uses, in an operand the validator inspects, a name that no earlier operand defines and
 //                                  that is the iterator of no fold starting earlier (the validator itself would have to report it)
 //   C23.scope.iterator_after_fold  no accepted script uses a fold iterator outside its fold (after it) in an operand the validator inspects
 //   C23.scope.next                 no accepted script has a next whose iterator is not the iterator of an enclosing fold
 //   C23.scope.unrouted             no accepted script uses a name that is neither defined earlier nor the iterator of a fold starting earlier in an
-//                                  operand the validator never inspects (peer of canon, value of ap-into-map, value of fail, the scalar of a
-//                                  %last_error% lens)
+//                                  operand the validator never inspects (peer of canon, value of ap-into-map, the scalar of a %last_error% lens)
 //   C23.scope.unrouted_iterator_after_fold   the cross term: a fold iterator used after its fold in such an operand (needs both repairs)
+//   C23.scope.unrouted_fail        the same for the one operand of `fail` (any name that is not in scope, iterator of an earlier fold or not)
 //   C23.scope.tree                 the tree of an accepted script contains no `Instruction::Error`; the public `parse` agrees with the decision
 // Each job fails exactly when some accepted script has a violation of ITS class and prints the smallest such script (FAIL line) and one line
 // per sub-class `<instruction>.<operand>:<reason>`. Well-scoped scripts that are REJECTED are counted with the first error kind (expected:
@@ -35,6 +35,7 @@ mod verif_native_validator_scope {
         Next,
         Unrouted,
         UnroutedIteratorAfterFold,
+        UnroutedFail,
     }
 
     #[derive(Clone)]
@@ -258,6 +259,8 @@ mod verif_native_validator_scope {
                         if !self.defined.contains(n) && !self.enclosing.contains(n) {
                             // a name that is the iterator of a fold starting earlier is what the validator's own rule (`<`) lets through
                             let class = match (self.earlier_folds.contains(n), *routed) {
+                                // the operand of fail is its own class whatever the name is (recorded separately: upstream tests pin it)
+                                (_, false) if node.kind == "fail" => Class::UnroutedFail,
                                 (true, true) => Class::IteratorAfterFold,
                                 (true, false) => Class::UnroutedIteratorAfterFold,
                                 (false, false) => Class::Unrouted,
@@ -410,13 +413,16 @@ mod verif_native_validator_scope {
         }
     }
 
-    fn run(core: bool, max_size: usize, t: &mut Tally) {
+    // checks the trees of `min_size..=max_size` instructions (the smaller ones are only built)
+    fn run(core: bool, min_size: usize, max_size: usize, t: &mut Tally) {
         let mut memo: Vec<Vec<Rc<Node>>> = vec![vec![]];
         for size in 1..=max_size {
             let keep = size < max_size;
             let mut level = vec![];
             for_each_tree(core, size, &memo, &mut |n| {
-                check(&n, t);
+                if size >= min_size {
+                    check(&n, t);
+                }
                 if keep {
                     level.push(n);
                 }
@@ -432,11 +438,17 @@ mod verif_native_validator_scope {
         TALLY.get_or_init(|| {
             let thorough = std::env::var("VERIF_TIER").map(|v| v == "thorough").unwrap_or(false);
             let mut t = Tally::default();
-            // full alphabet up to 3 (thorough: 4) instructions, reduced alphabet two instructions further
-            let (full, core) = if thorough { (4, 6) } else { (3, 5) };
-            run(false, full, &mut t);
+            // full alphabet up to 3 (thorough: 4) instructions, reduced alphabet two instructions further; the thorough tier goes through
+            // the quick tier's scripts first, in the same order, so that the script named in a FAIL line does not depend on the tier
+            run(false, 1, 3, &mut t);
             t.full_cases = t.cases;
-            run(true, core, &mut t);
+            run(true, 1, 5, &mut t);
+            if thorough {
+                let n = t.cases;
+                run(false, 4, 4, &mut t);
+                t.full_cases += t.cases - n;
+                run(true, 6, 6, &mut t);
+            }
             t
         })
     }
@@ -479,6 +491,11 @@ mod verif_native_validator_scope {
     #[test]
     fn scope_unrouted_iterator_after_fold() {
         report("C23.scope.unrouted_iterator_after_fold", Class::UnroutedIteratorAfterFold);
+    }
+
+    #[test]
+    fn scope_unrouted_fail() {
+        report("C23.scope.unrouted_fail", Class::UnroutedFail);
     }
 
     #[test]
